@@ -8,6 +8,7 @@ import SciVerif.Model.Chan
 import SciVerif.Tie.C12Sem
 import SciVerif.Model.Net
 import SciVerif.Model.NetVal
+import SciVerif.Model.NetFine
 /-!
 Line-protocol driver (Tie B): one request per line on stdin (tab separated), one response line.
 It runs the *executable models*, instantiated with the semantics records Tie A regenerated from
@@ -333,6 +334,54 @@ def values (n : Nat) (ins : List (List Nat)) (src : List Nat) (B : Nat) (ms : Li
 
 end NetRun
 
+namespace FineRun
+open SciVerif.Net SciVerif.NetFine
+
+def parseOp (n : Nat) (s : String) : Option (FLbl n) :=
+  let fin := fun (x : String) => match x.toNat? with | some k => if h : k < n then some (⟨k, h⟩ : Fin n) else none | none => none
+  match s.splitOn ":" with
+  | ["r", w, u] => match fin w, fin u with | some w, some u => some (.recv w u) | _, _ => none
+  | ["c", v] => (fin v).map .create
+  | ["s", v, w] => match fin v, fin w with | some v, some w => some (.send v w) | _, _ => none
+  | ["f", v] => (fin v).map .forward
+  | ["t", v] => (fin v).map .terminate
+  | _ => none
+
+/-- first thread whose next operation is enabled: perform it -/
+def pick {n : Nat} (net : Net n) (s : FSt n) : List (List (FLbl n)) → Option (FSt n × List (List (FLbl n)))
+  | [] => none
+  | [] :: rest => (pick net s rest).map fun (s', r) => (s', [] :: r)
+  | (l :: t) :: rest =>
+    match fstep net s l with
+    | some s' => some (s', t :: rest)
+    | none => (pick net s rest).map fun (s', r) => (s', (l :: t) :: r)
+
+def exec {n : Nat} (net : Net n) : Nat → FSt n → List (List (FLbl n)) → Nat → FSt n × List (List (FLbl n)) × Nat
+  | 0, s, ts, k => (s, ts, k)
+  | fuel + 1, s, ts, k =>
+    match pick net s ts with
+    | none => (s, ts, k)
+    | some (s', ts') => exec net fuel s' ts' (k + 1)
+
+/-- are the per-thread operation sequences of a real run (program order per goroutine) a run of the
+channel-operation model? -/
+def accept (n : Nat) (ins : List (List Nat)) (src : List Nat) (B : Nat) (threads : List (List String)) : String :=
+  let net := NetRun.mkNet n ins src B
+  let ts := threads.map fun t => t.filterMap (parseOp n)
+  let bad := (threads.zip ts).any fun (a, b) => a.length != b.length
+  if bad then "bad-ops" else
+  let total := (ts.map List.length).sum
+  let r := exec net (total + 1) (finit n) ts 0
+  let left := r.2.1
+  let vs := List.finRange n
+  if left.all List.isEmpty then
+    s!"accepted steps={r.2.2} term={",".intercalate (vs.map fun v => if r.1.term v then "1" else "0")} c={",".intercalate (vs.map fun v => toString (r.1.c v))}"
+  else
+    let idx := (left.zipIdx.filter fun (t, _) => !t.isEmpty).map fun (t, i) => s!"{i}@{(threads.getD i []).length - t.length}"
+    s!"stuck steps={r.2.2} threads={",".intercalate idx}"
+
+end FineRun
+
 def handle (line : String) : String :=
   match line.splitOn "\t" with
   | ["sem"] => semLine
@@ -471,6 +520,10 @@ def handle (line : String) : String :=
       | [nm, kind, nf, pv] => some ({ name := nm, kind := kind, nfile := nf.toNat!, pvals := if pv.isEmpty then [] else pv.splitOn "," } : NetRun.Meta)
       | _ => none
     NetRun.values n.toNat! inl (parseNats src) b.toNat! ms
+  | ["fine.accept", n, ins, src, b, threads] =>
+    let inl := (if ins.isEmpty then [] else ins.splitOn ";").map fun p => if p == "-" then [] else parseNats p
+    let ts := (if threads.isEmpty then [] else threads.splitOn ";").map fun t => if t.isEmpty then [] else t.splitOn ","
+    FineRun.accept n.toNat! inl (parseNats src) b.toNat! ts
   | ["run.sem"] => s!"skipSelf={runSem.skipSelf};driverRemovedFromArg={runSem.driverRemovedFromArg};singleProcKept={runSem.singleProcKept};driverReadyChecked={runSem.driverReadyChecked};sinkWaited={runSem.sinkWaited};readyBeforeStart={runSem.readyBeforeStart};mergesFile={runSem.mergesFile};mergesParam={runSem.mergesParam}"
   | ["chan.search", b, streams] =>
     let ss := (if streams.isEmpty then [] else streams.splitOn ";").map parseNats
